@@ -184,6 +184,7 @@ GridClauses(T) ==
      <<"InteriorExteriorPartition", InteriorExteriorPartition(T)>>,
      <<"CornersOnFace", FaceCounts(T) /\ CornersOnFace(T)>> >>
 
+AllFail(cl) == {cl[i][1] : i \in {j \in DOMAIN cl : ~cl[j][2]}}
 FirstFail(cl) == IF \A i \in DOMAIN cl : cl[i][2] THEN "ok"
                  ELSE cl[CHOOSE i \in DOMAIN cl : ~cl[i][2] /\ \A j \in 1..i-1 : cl[j][2]][1]
 
